@@ -73,8 +73,8 @@ CLAIMED["C05"] = {
             "lexicographic, z-order-uniq decode∘encode = id for every quantity/width/legal depth, width widening/narrowing round trip and monotonicity, and the "
             "one-step theorem of the greedy cell view (legal depth, aligned cell, exactly the head of the range, progress); list level, for EVERY valid MOC: ranges -> cells -> ranges = id "
             "(cells_roundtrip), ranges -> cells -> cell ranges -> ranges = id (cellranges_roundtrip), both views cover exactly the MOC, the cell list is a normal form determined by the covered set "
-            "and the view is injective, flat cells = the depth-d cells inside the MOC, generic uniq decode∘encode = id for the three quantities. Partial: HpxUniq2DepthIdxIter is decided by the "
-            "correspondence check (identity round trips) only; UniqToHpxIter is transliterated (uniq_to_hpx_spec, op u_tohpx); the ranges -> NUNIQ iterator is transliterated and proved (session 5, below).",
+            "and the view is injective, flat cells = the depth-d cells inside the MOC, generic uniq decode∘encode = id for the three quantities. HpxUniq2DepthIdxIter is tied to the cells of the proved iterator model in emission order (op r_depthidx); "
+            " UniqToHpxIter is transliterated (uniq_to_hpx_spec, op u_tohpx); the ranges -> NUNIQ iterator is transliterated and proved (session 5, below).",
     "design_ref": "DESIGN.md §4 C05, §10",
     "note": TB + "; log2 / trailing-zero specifications of the CPU instructions",
     "technique": "Lean 4 proof (arithmetic on codes) + differential correspondence",
